@@ -84,8 +84,9 @@ def check(repo, res, tier):
     _check_setters(repo, res)
     _check_split(repo, res)
     cls = M.sim_class(repo)
-    C01.effect_table_checks(repo, res, cls, names={"get_ode_eqn", "get_StateChangeMatrix"})
-    C01._check_accum(repo, res, cls)
+    from ..rules import buildx as BX
+    nb = BX.check_builders(repo, res, ["get_ode_eqn", "get_StateChangeMatrix"])
+    res.floor("builder interpretations", nb, 18)
 
 
 # ------------------------------------------------------------------- R-NULL
@@ -138,82 +139,78 @@ def _check_event_init(repo, res):
 
 
 # ------------------------------------------------------------------ R-BIRTH
+def build_transition(repo, **kw):
+    """interpret Transition.__init__ (its helpers and properties are interpreted from their own source) and read the
+    object back through its public properties -> (kind, {property: value})"""
+    cls = repo.cls(M.M_TRANS, "Transition")
+    f = cls.methods["__init__"]
+    me = Obj("Transition")
+    ab = Abs({}, TYPES, {}, me)
+    ab.consts = {"TransitionType": TT}
+    ab.class_methods = set(cls.methods) | set(cls.getters)
+    kind, out = ab.run_function(f.node, dict(kw))
+    if kind != "return":
+        return kind, out
+    view = {}
+    for prop in ("origin", "destination", "equation", "transition_type", "magnitude"):
+        if prop == "magnitude" and prop not in cls.getters:
+            view[prop] = me.attrs.get("_magnitude")      # no public property on this tree: the builders read the field itself
+            continue
+        try:
+            view[prop] = ab.getattr(me, prop)
+        except Raised as r:
+            view[prop] = None if "AttributeError" in str(r.exc) else "raises %s" % r.exc     # a field that was never set
+    return kind, view
+
+
 def _check_transition_init(repo, res):
     cls = repo.cls(M.M_TRANS, "Transition")
     f = cls.methods["__init__"]
-    # helper summaries, each verified structurally first
-    setters = {"_setOrigState": "_orig_state", "_setDestState": "_dest_state", "_setMagnitude": "_magnitude", "_setEquation": "_equation"}
-    ok_all = True
-    for m, attr in setters.items():
-        g = cls.methods.get(m)
-        ok = g is not None and any(isinstance(s, ast.Assign) and is_self_attr(s.targets[0], attr) and norm(s.value) == g.params[1] for s in g.node.body)
-        res.check(ok, "R-BIRTH", g or f, "summary(%s)" % m, "%s stores its argument in self.%s" % (m, attr),
-                  "%s does not store its argument in self.%s" % (m, attr))
-        ok_all = ok_all and ok
-    props = {"origin": "_orig_state", "destination": "_dest_state", "equation": "_equation", "transition_type": "_transition_type"}
-    for pn, attr in props.items():
-        g = cls.getters.get(pn)
-        rets = [s for s in (g.node.body if g else []) if isinstance(s, ast.Return)]
-        ok = g is not None and len(rets) == 1 and is_self_attr(rets[0].value, attr)
-        res.check(ok, "R-BIRTH", g or f, "summary(%s)" % pn, "property %s returns self.%s" % (pn, attr), "property %s does not return self.%s" % (pn, attr))
-        ok_all = ok_all and ok
-    if not ok_all:
-        return
-    # _setTransitionType by abstract execution
-    stt = cls.methods["_setTransitionType"]
-    want = {"T": "T", "t": "T", "B": "B", "b": "B", "D": "D", "d": "D", "ODE": "ODE", "ode": "ODE"}
-    bad = []
-    for s, k in want.items():
-        me = Obj("Transition")
-        ab = Abs({"TransitionType": TT}, TYPES, {}, me)
-        kind, _ = ab.run_function(stt.node, {stt.params[1]: s})
-        if kind != "return" or me.attrs.get("_transition_type") != TT.attrs[k]:
-            bad.append("%r -> %r" % (s, me.attrs.get("_transition_type")))
-    for k in ("T", "B", "D", "ODE"):
-        me = Obj("Transition")
-        ab = Abs({"TransitionType": TT}, TYPES, {}, me)
-        kind, _ = ab.run_function(stt.node, {stt.params[1]: TT.attrs[k]})
-        if kind != "return" or me.attrs.get("_transition_type") != TT.attrs[k]:
-            bad.append("enum %s -> %r" % (k, me.attrs.get("_transition_type")))
-    res.check(not bad, "R-BIRTH", stt, "type-strings", "type strings and enum members map to the right TransitionType",
-              "transition type mapping is wrong for %s" % bad, node=stt.node)
-
-    def summ_set(attr):
-        def s(me, v):
-            me.attrs[attr] = v
-            return me
-        return s
-
-    def run(tt, origin, destination):
-        me = Obj("Transition")
-        summ = {"Transition._setTransitionType": lambda me_, v: me_.attrs.__setitem__("_transition_type", TT.attrs[v]),
-                "Transition._setOrigState": summ_set("_orig_state"), "Transition._setDestState": summ_set("_dest_state"),
-                "Transition._setMagnitude": summ_set("_magnitude"), "Transition._setEquation": summ_set("_equation")}
-        getters = {"transition_type": lambda o: o.attrs["_transition_type"]}
-        ab = Abs({"TransitionType": TT}, TYPES, summ, me, getters)
-        kind, _ = ab.run_function(f.node, {"origin": origin, "destination": destination, "transition_type": tt,
-                                           "equation": Tok("eq", "sym"), "magnitude": Tok("m", "sym")})
-        return kind, me
+    eq, mg = Tok("eq", "sym"), Tok("m", "sym")
     try:
-        k1, a = run("B", "X", None)
-        k2, b = run("B", None, "X")
-        ok = k1 == k2 == "return" and a.attrs.get("_dest_state") == b.attrs.get("_dest_state") == "X" \
-            and a.attrs.get("_magnitude") == b.attrs.get("_magnitude") and a.attrs.get("_equation") == b.attrs.get("_equation")
-        res.check(ok, "R-BIRTH", f, "birth-origin==destination",
-                  "Transition(origin=X, type B) and Transition(destination=X, type B) store the same destination, magnitude and equation",
-                  "a birth named by origin is stored as %s, one named by destination as %s" % (a.attrs if k1 == "return" else k1, b.attrs if k2 == "return" else k2), node=f.node)
-        k3, _ = run("B", None, None)
+        # type strings and enum members
+        bad = []
+        for s_, k in {"T": "T", "t": "T", "B": "B", "b": "B", "D": "D", "d": "D", "ODE": "ODE", "ode": "ODE"}.items():
+            for tt in (s_, TT.attrs[k]):
+                kind, v = build_transition(repo, origin="X", destination="Y" if k == "T" else None, transition_type=tt, equation=eq, magnitude=mg)
+                if kind != "return" or v.get("transition_type") != TT.attrs[k]:
+                    bad.append("%r -> %r" % (tt, v.get("transition_type") if kind == "return" else v))
+        res.check(not bad, "R-BIRTH", f, "type-strings", "type strings and enum members map to the right TransitionType",
+                  "transition type mapping is wrong for %s" % bad[:4], node=f.node)
+        # births: every spelling x every magnitude / equation gives the same object
+        diffs = []
+        for magn in (mg, "1", "2", "c"):
+            for eqn in (eq, None):
+                k1, a = build_transition(repo, origin="X", destination=None, transition_type="B", equation=eqn, magnitude=magn)
+                k2, b = build_transition(repo, origin=None, destination="X", transition_type="B", equation=eqn, magnitude=magn)
+                if not (k1 == k2 == "return"):
+                    diffs.append("magnitude=%r equation=%r: by origin %s, by destination %s" % (magn, eqn, k1 if k1 != "return" else "ok", k2 if k2 != "return" else "ok"))
+                    continue
+                want = {"origin": None, "destination": "X", "equation": eqn, "transition_type": TT.attrs["B"], "magnitude": magn}
+                for lab, got in (("named by origin", a), ("named by destination", b)):
+                    dd = {p_: (got.get(p_), want[p_]) for p_ in want if got.get(p_) != want[p_] and not (p_ == "origin" and got.get(p_) in (None, "X"))}
+                    if dd:
+                        diffs.append("birth %s with magnitude=%r equation=%r is stored with %s" % (lab, magn, eqn, ", ".join("%s=%r (expected %r)" % (k_, v_[0], v_[1]) for k_, v_ in dd.items())))
+        res.check(not diffs, "R-BIRTH", f, "birth-origin==destination",
+                  "a birth named by origin and one named by destination store the same destination, magnitude and equation (8 magnitude/equation combinations)",
+                  "; ".join(diffs[:2]), node=f.node)
+        k3, _ = build_transition(repo, origin=None, destination=None, transition_type="B", equation=eq, magnitude=mg)
         res.check(k3 == "raise", "R-BIRTH", f, "birth-needs-a-state", "a birth without any state is rejected", "a birth without origin and destination is accepted")
-        # the other types keep their states where they were put
-        kT, t = run("T", "S", "I")
-        okT = kT == "return" and t.attrs.get("_orig_state") == "S" and t.attrs.get("_dest_state") == "I" and t.attrs.get("_magnitude") == Tok("m", "sym")
-        kD, d = run("D", "S", None)
-        okD = kD == "return" and d.attrs.get("_orig_state") == "S"
-        kO, o = run("ODE", "S", None)
-        okO = kO == "return" and o.attrs.get("_orig_state") == "S" and o.attrs.get("_equation") == Tok("eq", "sym")
-        res.check(okT and okD and okO, "R-BIRTH", f, "fields-kept", "origin/destination/magnitude/equation are stored as given for T, D and ODE",
-                  "fields are not stored as given: T ok=%s D ok=%s ODE ok=%s" % (okT, okD, okO), node=f.node)
-        same, _ = run("T", "S", "S")
+        # the other types keep their fields where they were put
+        bad = []
+        for tt, o, d_ in (("T", "S", "I"), ("D", "S", None), ("ODE", "S", None)):
+            for magn in (mg, "1", "3"):
+                k_, v = build_transition(repo, origin=o, destination=d_, transition_type=tt, equation=eq, magnitude=magn)
+                want = {"origin": o, "destination": d_, "equation": eq, "magnitude": magn, "transition_type": TT.attrs[tt]}
+                if k_ != "return":
+                    bad.append("%s(%s -> %s, magnitude %r) is rejected" % (tt, o, d_, magn))
+                else:
+                    dd = [p_ for p_ in want if v.get(p_) != want[p_] and not (p_ == "destination" and tt != "T")]
+                    if dd:
+                        bad.append("%s(%s -> %s, magnitude %r) stores %s" % (tt, o, d_, magn, {p_: v.get(p_) for p_ in dd}))
+        res.check(not bad, "R-BIRTH", f, "fields-kept", "origin/destination/magnitude/equation are stored as given for T, D and ODE",
+                  "; ".join(bad[:3]), node=f.node)
+        same, _ = build_transition(repo, origin="S", destination="S", transition_type="T", equation=eq, magnitude=mg)
         res.check(same == "raise", "R-BIRTH", f, "T-distinct-states", "a transition from a state to itself is rejected", "origin == destination is accepted for type T")
     except Undecided as e:
         res.undecided("R-BIRTH", f, "abstract-execution", "Transition.__init__ is outside the modelled subset: %s" % e)
